@@ -437,6 +437,11 @@ var goodBodies = []string{
 	`<title>{{template "hs" .}}</title><style>{{template "hss" .}}</style>`,
 	`<p title="{{template "ht"}}">x</p>`,
 	`<a href="/p?{{template "ht"}}">y</a>`,
+	// a text-only helper called inside URL values with different static text in front of the call
+	`<a href="/p/{{template "ht2"}}/{{.V}}">x</a>`,
+	`<a href="/q{{template "ht2"}}?q={{.V}}">y</a>`,
+	`<a href="/r?a={{template "ht2"}}&amp;b={{template "ht2"}}{{.V}}">z</a>`,
+	`<div>{{template "hv" .}}</div>`,
 }
 
 // fixedHelpers are defined in every generated set. They are only reached through their callers (the generator never
@@ -449,6 +454,8 @@ var fixedHelpers = map[string]string{
 	"hs":    `{{.T}}`,
 	"hss":   `{{.SS}}`,
 	"ht":    `1<2 &amp; a&b`,
+	"ht2":   `v2`,
+	"hv":    `{{.V}}`,
 }
 
 // NoDirect reports whether a template name must only be reached through callers.
@@ -475,7 +482,7 @@ var badBodies = map[string][]string{
 	"nontext-end-call":   {`<p>{{template "h0" .}}</p><a href="`, `{{template "h0" .}}<b title='x`, `<i>{{template "h0" .}}</i><textarea>`},
 	"action-in-tag":      {`<a {{.V}}>`, `<a{{.V}}>`, `<a title="x" {{.V}}="y">`},
 	"unquoted-value":     {`<a title={{.V}}>`, `<a href=/x/{{.V}}>`},
-	"unknown-element":    {`<foo>{{.V}}</foo>`, `<svg>{{.V}}</svg>`, `<object>{{.V}}</object>`},
+	"unknown-element":    {`<foo>{{.V}}</foo>`, `<svg>{{.V}}</svg>`, `<object>{{.V}}</object>`, `<xmp>{{template "hv" .}}</xmp>`, `<svg>{{template "ht2"}}{{.V}}</svg>`},
 	"unknown-attribute":  {`<a foo="{{.V}}">`, `<div onclick="{{.V}}">`, `<p background="{{.V}}">`},
 	"unsafe-url-prefix":  {`<a href="javascript:{{.V}}">`, `<a href="java{{.V}}">`, `<script src="http://h/{{.V}}"></script>`},
 	"ambiguous-prefix":   {`<a href="{{if .C}}/x{{else}}/y{{end}}{{.V}}">`, `<a href="{{if .C}}{{else}}java{{end}}{{.V}}">`},
